@@ -293,7 +293,13 @@ pub fn gen_tracker_case(seed: u64, o: &WorldOpts) -> TrackerCase {
     if let Some(t) = cfg.constraints.as_mut() {
         let mut r3 = Rng::new(seed ^ 0x7AB1_E000_0000_0007);
         if r3.chance(1, 2) {
-            t.push((r3.range(5, 8) as usize, *r3.pick(&[0.1f32, 0.15, 0.2])));
+            t.push((*r3.pick(&[5usize, 6, 7, 8, 64, 100]), *r3.pick(&[0.1f32, 0.15, 0.2])));
+        }
+    }
+    // one visual configuration in twelve keeps a big gallery (24 features)
+    if let Some(v) = cfg.visual.as_mut() {
+        if Rng::new(seed ^ 0x6A11_E2B1_0000_000B).chance(1, 12) {
+            v.max_obs = 24;
         }
     }
     let cfg = cfg;
@@ -309,6 +315,21 @@ pub fn gen_tracker_case(seed: u64, o: &WorldOpts) -> TrackerCase {
         }
         v
     };
+    // boundary scene ids in a quarter of the histories (own random stream): the second scene is
+    // congruent to the first modulo 2^32, the third is u64::MAX, further ones sit just below it
+    let mut scene_ids = scene_ids;
+    if !wide && Rng::new(seed ^ 0x5CE9_E1D5_0000_0009).chance(1, 4) {
+        let first = scene_ids[0];
+        for (k, s) in scene_ids.iter_mut().enumerate() {
+            *s = match k {
+                0 => first,
+                1 => (1u64 << 32) | (first & 0xFFFF_FFFF),
+                2 => u64::MAX,
+                _ => u64::MAX - k as u64,
+            };
+        }
+    }
+    let scene_ids = scene_ids;
     let long = o.long_life > 0 && r.chance(1, 2);
     let frames = if wide {
         r.range(1, 4) as usize
